@@ -34,10 +34,15 @@ def divide(f, npos, k):
 
 
 def edge_key(f):
+    """an edge up to its name: the copies of a named edge carry names of their own (checked separately)"""
     if f[0] == "L":
         pos = oracle.link_canon(f[1:6])
-        return ("L", tuple(pos), tuple(sorted(f[6:])))
-    return ("C", tuple(f[1:7]), tuple(sorted(f[7:])))
+        return ("L", tuple(pos), tuple(sorted(t for t in f[6:] if not t.startswith("ID:"))))
+    return ("C", tuple(f[1:7]), tuple(sorted(t for t in f[7:] if not t.startswith("ID:"))))
+
+
+def edge_ids(text):
+    return sorted(t for l in text.split("\n") if l[:1] in "LC" for t in l.split("\t")[6:] if t.startswith("ID:"))
 
 
 def edge_ends(f):
@@ -74,9 +79,20 @@ def check(case):
             kw["copy_names"] = list(names)
         if policy is not None:
             kw["distribute"] = policy
+        bad_names = names is not None and factor >= 2 and (len(names) != factor - 1 or len(set(names)) != len(names) or any(n in segs for n in names))
         try:
             g.multiply(target, factor, **kw)
-        except gfapy.ArgumentError:
+            if bad_names:
+                fail("unusable-copy-names-accepted", "%r for factor %d" % (names, factor))
+                return dict(key=case, nontrivial=True, failures=fails)
+        except (gfapy.ArgumentError, gfapy.NotUniqueError) as e:
+            if bad_names:
+                if str(g) != before or state.wf_errors(g):
+                    fail("refused-copy-names-changed-graph", "%r: %s" % (names, harness.short(e, 80)))
+                return dict(key=case, nontrivial=True, failures=fails)
+            if isinstance(e, gfapy.NotUniqueError):
+                fail("raises-NotUniqueError", harness.short(e, 200))
+                return dict(key=case, nontrivial=True, failures=fails)
             if factor >= 0:
                 fail("refused-ArgumentError", "factor %d" % factor)
             elif str(g) != before:
@@ -130,6 +146,14 @@ def check(case):
                 if c[1] == target: c[1] = m
                 if c[3] == target: c[3] = m
                 full[edge_key(c)] += 1
+        ids_b, ids_a = edge_ids(before), edge_ids(after)
+        if len(set(ids_a)) != len(ids_a):
+            fail("edge-names-not-distinct", str(ids_a))
+        if policy in (None, "off") and not set(ids_b) <= set(ids_a):      # (with distribution the original of a named link may be the one that goes)
+            fail("edge-name-lost", "%s -> %s" % (ids_b, ids_a))
+        n_named = sum(1 for f in edges if target in (f[1], f[3]) and any(t.startswith("ID:") for t in f[6:]))
+        if policy in (None, "off") and len(ids_a) != len(ids_b) + n_named * (factor - 1):
+            fail("copies-of-named-edges", "%s -> %s for factor %d" % (ids_b, ids_a, factor))
         if policy in (None, "off"):
             if ge != full:
                 fail("edges-differ", "missing %s extra %s" % (sorted(map(str, (full - ge).elements()))[:4], sorted(map(str, (ge - full).elements()))[:4]))
@@ -182,6 +206,93 @@ def check(case):
     return dict(key=case, nontrivial=factor >= 2, failures=fails, sample=dict(lines=lines, segment=target, factor=factor, distribute=policy))
 
 
+def check_gfa2(case):
+    """GFA2 graphs (edges usually carry names there): k-1 new segments equal to the original; every edge of the target is found once per
+    copy with the same positions, orientations, other segment and tags (counts divided), under distinct names; nothing else changes"""
+    _, lines, target, factor = case
+    lines = list(lines)
+    fails = []
+    def fail(sig, what):
+        fails.append(dict(signature="C15:gfa2:" + sig, what=what, case=dict(lines=lines, segment=target, factor=factor),
+                          reproducer="import gfapy\ng = gfapy.Gfa(%r)\ng.multiply(%r, %d)\nprint(g)" % (lines, target, factor)))
+    try:
+        g = gfapy.Gfa(lines, vlevel=1)
+        g.multiply(target, factor)
+        after = str(g).split("\n")
+        segs_b = {l.split("\t")[1]: l.split("\t")[2:] for l in lines if l[0] == "S"}
+        segs_a = {l.split("\t")[1]: l.split("\t")[2:] for l in after if l[0] == "S"}
+        new = sorted(set(segs_a) - set(segs_b))
+        if len(new) != factor - 1:
+            fail("number-of-copies", "%s for factor %d" % (new, factor))
+            return dict(key=case, nontrivial=True, failures=fails)
+        members = [target] + new
+        def sig(l, mem):
+            f = l.split("\t")
+            f = divide(f, 9, 1)
+            s1, s2 = f[2], f[3]
+            a = "@" + s1[-1] if s1[:-1] in mem else s1
+            b = "@" + s2[-1] if s2[:-1] in mem else s2
+            return (a, b) + tuple(f[4:9]) + tuple(sorted(f[9:]))
+        def counted(l):
+            # the property speaks of dovetails and containments; internal alignments are not its subject (gfapy leaves them on the original)
+            return l[0] == "E" and oracle.e_class(l.split("\t")[1:9])[0] != "internal"
+        want = Counter()
+        for l in lines:
+            if not counted(l):
+                continue
+            f = l.split("\t")
+            touches = target in (f[2][:-1], f[3][:-1])
+            fd = "\t".join(divide(f, 9, factor)) if touches else l
+            want[sig(fd, [target])] += factor if touches else 1
+        got = Counter(sig(l, members) for l in after if counted(l))
+        if got != want:
+            fail("edges-differ", "missing %s extra %s" % (sorted(map(str, (want - got).elements()))[:3], sorted(map(str, (got - want).elements()))[:3]))
+        # every member carries each edge of the target exactly once
+        for m in members:
+            n_m = sum(1 for l in after if counted(l) and m in (l.split("\t")[2][:-1], l.split("\t")[3][:-1]))
+            n_t = sum(1 for l in lines if counted(l) and target in (l.split("\t")[2][:-1], l.split("\t")[3][:-1]))
+            if n_m != n_t:
+                fail("copy-has-another-number-of-edges", "%s: %d, the original had %d" % (m, n_m, n_t)); break
+        names = [l.split("\t")[1] for l in after if l[0] in "ESOUG" and l.split("\t")[1] != "*"]
+        if len(set(names)) != len(names):
+            fail("names-not-distinct", str(sorted(names)))
+        for l in lines:
+            if l[0] not in "SE" and l not in after:
+                fail("other-line-changed", l)
+        w = state.wf_errors(g)
+        if w:
+            fail("wf:%s" % w[0][0], w[0][1])
+    except gfapy.Error as e:
+        fail("raises-%s" % type(e).__name__, harness.short(e, 200))
+    except Exception as e:
+        import traceback
+        fail("foreign-%s" % type(e).__name__, harness.short(traceback.format_exc()[-500:], 500))
+    return dict(key=case, nontrivial=True, failures=fails, sample=dict(lines=lines, segment=target, factor=factor))
+
+
+def check_any(case):
+    return check_gfa2(case) if case[0] == "gfa2" else check(case)
+
+
+def cases_gfa2(tier, rng):
+    out = []
+    kinds = {"pfx": ("0", "2"), "sfx": ("6", "8$"), "whole": ("0", "8$"), "inner": ("2", "5")}
+    for _ in range(600 if tier == "quick" else 6000):
+        segnames = ["A", "B", "C"][:rng.randrange(1, 4)]
+        lines = ["S\t%s\t8\t*%s" % (s, rng.choice(["", "\tRC:i:10", "\tKC:i:7\tab:Z:x"])) for s in segnames]
+        for i in range(rng.randrange(0, 5)):
+            a = "A" if rng.random() < 0.6 else rng.choice(segnames)
+            b = rng.choice(segnames)
+            k1, k2 = rng.choice(sorted(kinds)), rng.choice(sorted(kinds))
+            name = "e%d" % i if rng.random() < 0.6 else "*"
+            lines.append("E\t%s\t%s%s\t%s%s\t%s\t%s\t%s\t%s\t*%s" % (name, a, rng.choice("+-"), b, rng.choice("+-"), kinds[k1][0], kinds[k1][1], kinds[k2][0], kinds[k2][1],
+                                                                     rng.choice(["", "\tRC:i:9"])))
+        if rng.random() < 0.3 and len(segnames) > 1:
+            lines.append("U\tu\t%s" % " ".join(segnames[1:]))
+        out.append(("gfa2", tuple(lines), "A", rng.choice([2, 3])))
+    return out
+
+
 def cases(tier, seed):
     rng = random.Random(seed)
     out = []
@@ -205,25 +316,37 @@ def cases(tier, seed):
                 if key in seen:
                     continue
                 seen.add(key)
-                lines.append("L\t%s\t%s\t%s\t%s\t%s%s" % (a, oa, b, ob, cg, rng.choice(["", "\tRC:i:9", "\tKC:i:4\tMQ:i:3"])))
-            elif a != b:
-                lines.append("C\t%s\t%s\t%s\t%s\t%d\t*" % (a, oa, b, ob, rng.randrange(3)))
+                idt = "\tID:Z:e%d" % len(lines) if rng.random() < 0.25 else ""
+                lines.append("L\t%s\t%s\t%s\t%s\t%s%s%s" % (a, oa, b, ob, cg, rng.choice(["", "\tRC:i:9", "\tKC:i:4\tMQ:i:3"]), idt))
+            elif a != b or rng.random() < 0.3:
+                idt = "\tID:Z:e%d" % len(lines) if rng.random() < 0.25 else ""
+                lines.append("C\t%s\t%s\t%s\t%s\t%d\t*%s%s" % (a, oa, b, ob, rng.randrange(3), rng.choice(["", "\tRC:i:6"]), idt))
         factor = rng.choice([-1, 0, 1, 2, 2, 3, 3, 4])
         policy = rng.choice([None, None, "off", "auto", "equal", "L", "R"])
         names = None
         if factor >= 2 and rng.random() < 0.3:
             names = tuple("cp%d" % i for i in range(factor - 1))
+            r = rng.random()
+            if r < 0.1:
+                names = names[:-1]                          # one name short
+            elif r < 0.2:
+                names = names + ("cpx",)                    # one too many
+            elif r < 0.3:
+                names = names[:-1] + (rng.choice(segnames),)   # a name in use
+            elif r < 0.4 and len(names) >= 2:
+                names = (names[0],) * len(names)            # the same name twice
         out.append((tuple(lines), tname, factor, policy, names))
-    return out
+    return out + cases_gfa2(tier, rng)
 
 
 if __name__ == "__main__":
     tier, seed = harness.args()
     cs = cases(tier, seed)
-    res = harness.run(cs, check,
+    res = harness.run(cs, check_any,
                       rule="seeded GFA1 graphs: 2-4 segments (target named A, A*2 or X*3; with/without counts and sequence), 0-5 links/containments mostly on the target (self-links, hairpins, parallel ends), "
-                           "factor in -1..4, distribution policy None/off/auto/equal/L/R, given or automatic copy names; oracle: k-1 fresh distinct copies identical to the original with counts // k, every "
+                           "factor in -1..4, distribution policy None/off/auto/equal/L/R, given or automatic copy names (also too few, too many, in use, repeated: refused with the graph unchanged), a quarter of the edges named (ID tag), containments of a segment in itself; oracle: k-1 fresh distinct copies identical to the original with counts // k, every "
                            "edge of the target copied onto every copy with counts // k (no distribution), or with distribution: no invented link, links removed on one end only (the requested one), every former "
-                           "neighbour still linked to some copy; factor 1 no change, factor 0 = removal (text model), negative refused without change; other segments untouched; WF and UNIQ hold",
+                           "neighbour still linked to some copy; factor 1 no change, factor 0 = removal (text model), negative refused without change; other segments untouched; WF and UNIQ hold. GFA2 graphs (1-3 segments, 0-4 E lines of every interval kind, mostly named, "
+                           "self edges, a set): k-1 copies, every edge of the target once per copy with the same positions and tags (counts divided) under distinct names, other lines unchanged, WF",
                       bound="<=4 segments, <=5 edges, factor <=4", exhaustive=False)
     harness.emit(res)
